@@ -2,6 +2,7 @@ import GmqttVerif.Model.RedisStores
 import GmqttVerif.Model.RedisHistory
 import GmqttVerif.Proofs.ElemCodec
 import GmqttVerif.Proofs.RedisCrash
+import GmqttVerif.Properties.C10Redis
 /-
   C09 — Durable (redis) sessions survive a broker crash at any point.
 
